@@ -1,0 +1,21 @@
+// Copyright 2019 The Scriggo Authors. All rights reserved.
+// Use of this source code is governed by a BSD-style
+// license that can be found in the LICENSE file.
+
+//go:build verif
+
+// Contracts for the deductive verifier in /verif (govc). This file is compiled
+// only with the "verif" build tag. The //@ comment blocks are the contracts.
+
+package ast
+
+// WithEnd copies the position into a local variable and returns its address
+// (outside the verifier's subset: no address-of on locals); assumed from its
+// four lines: a fresh position equal to p but for End.
+//@ func (*Position).WithEnd
+//@   props X00
+//@   trusted
+//@   modifies nothing
+//@   opt allocates yes
+//@   requires p != nil
+//@   ensures result != nil && result != p && result.Line == p.Line && result.Column == p.Column && result.Start == p.Start && result.End == end
